@@ -11,7 +11,7 @@
 (***************************************************************************)
 EXTENDS Naturals, Sequences, FiniteSets, TLC, Json
 
-CONSTANTS Family
+CONSTANTS Family, MaxLook
 
 \* ------------------------------------------------------------------ atoms: id -> classes
 \* single = no line break; block = multi-line and block-scalar safe (every line non-empty, no leading or trailing
@@ -141,11 +141,19 @@ Domain(f, s) ==
             [] s.sh = "mixed" -> "open"
             [] OTHER -> "out")
 
+\* ------------------------------------------------------------------ number / keyword look-alikes
+\* every string of up to MaxLook characters over the characters numbers are made of; used as key and as value of a
+\* one-field object. They are all single-line strings, hence inside the YAML domain: a reader must give the string back,
+\* not a number, a boolean or null.
+LookChars == 1..12        \* 0 1 7 x b o e . - _ + :   (the driver holds the characters)
+LookDomain(f) == IF f \in {"yaml", "yamlstream"} THEN "in" ELSE "skip"
+
 \* ------------------------------------------------------------------ enumeration
 YamlOpts == {[iao |-> i, qk |-> q, cde |-> c] : i \in BOOLEAN, q \in BOOLEAN, c \in BOOLEAN}
 VARIABLE st
 Seeds == {[sh |-> "str"], [sh |-> "arr"], [sh |-> "obj"], [sh |-> "nest"], [sh |-> "tables"], [sh |-> "jsonml"], [sh |-> "ini"], [sh |-> "fixed"]}
-Init == st \in {[ph |-> "seed", s |-> s, a |-> a] : s \in Seeds, a \in Atoms}
+Init == IF Family = "lookalike" THEN st \in {[ph |-> "look", cs |-> <<c>>] : c \in LookChars}
+        ELSE st \in {[ph |-> "seed", s |-> s, a |-> a] : s \in Seeds, a \in Atoms}
 Second(sh, a) == IF Family = "full" THEN Atoms ELSE {1, 2, 18, 30, 57, (a % NAtoms) + 1}     \* pairs: all, or a covering sample
 Expand(sd, a) ==
   CASE sd.sh = "str" -> {[sh |-> "str", a |-> a]}
@@ -156,10 +164,12 @@ Expand(sd, a) ==
     [] sd.sh = "jsonml" -> {[sh |-> "jsonml", t |-> a, v |-> b] : b \in Second("jsonml", a)} \cup {[sh |-> "jsonml", t |-> b, v |-> a] : b \in Second("jsonml", a)}
     [] sd.sh = "ini" -> {[sh |-> "ini", k |-> a, v |-> b] : b \in Second("ini", a)} \cup {[sh |-> "ini", k |-> b, v |-> a] : b \in Second("ini", a)}
     [] sd.sh = "fixed" -> IF a = 1 THEN {[sh |-> "mixed"], [sh |-> "func"], [sh |-> "badjsonml"]} ELSE {}
-Next == /\ st.ph = "seed"
-        /\ \E s \in Expand(st.s, st.a) : st' = [ph |-> "case", s |-> s]
-Emit == st.ph = "case" =>
-  PrintT("REPLAY " \o ToJson([fam |-> "formats", s |-> st.s, dom |-> [f \in Formats |-> Domain(f, st.s)]]))
+Next == \/ (st.ph = "seed" /\ \E s \in Expand(st.s, st.a) : st' = [ph |-> "case", s |-> s])
+        \/ (st.ph = "look" /\ Len(st.cs) < MaxLook /\ \E c \in LookChars : st' = [ph |-> "look", cs |-> Append(st.cs, c)])
+Emit == /\ (st.ph = "case" =>
+             PrintT("REPLAY " \o ToJson([fam |-> "formats", s |-> st.s, dom |-> [f \in Formats |-> Domain(f, st.s)]])))
+        /\ (st.ph = "look" =>
+             PrintT("REPLAY " \o ToJson([fam |-> "formats.look", s |-> [sh |-> "look", cs |-> st.cs], dom |-> [f \in Formats |-> LookDomain(f)]])))
 \* model law: a function is outside every domain; a string-only YAML document of a single-line atom is always inside
 Laws == st.ph = "case" => /\ (st.s.sh = "func" => \A f \in Formats : Domain(f, st.s) = "out")
                           /\ ((st.s.sh = "str" /\ Is(st.s.a, "single")) => Domain("yaml", st.s) = "in")
